@@ -547,6 +547,16 @@ type Outcome struct {
 // machine is. After giveUp without such a picture the outcome is Undecided.
 
 func Run(f func(), baseline map[int]bool, grace, giveUp time.Duration) Outcome {
+	return RunP(f, baseline, grace, giveUp, nil)
+}
+
+// RunP is Run with a progress counter (e.g. Rec.N): a deadlock is only
+// declared when FOUR consecutive censuses, one second apart, show the same
+// goroutines in the same blocked states with the same stacks AND the counter
+// did not move. (A goroutine parked in "IO wait" may have its wake-up pending
+// in the poller on a starved machine, and a slow writer/reader pair is in the
+// same states at every look; neither survives this test.)
+func RunP(f func(), baseline map[int]bool, grace, giveUp time.Duration, progress func() int64) Outcome {
 	done := make(chan struct{})
 	go func() {
 		defer close(done)
@@ -559,6 +569,8 @@ func Run(f func(), baseline map[int]bool, grace, giveUp time.Duration) Outcome {
 	}
 	start := time.Now()
 	var prev map[int]string
+	same := 0
+	var prevProgress int64 = -1
 	for {
 		select {
 		case <-done:
@@ -573,12 +585,22 @@ func Run(f func(), baseline map[int]bool, grace, giveUp time.Duration) Outcome {
 				continue
 			}
 			gs = append(gs, g)
-			cur[g.ID] = g.State
+			cur[g.ID] = g.State + "\n" + stackFrames(g.Stack)
 			if !blockedState(g.State) {
 				allBlocked = false
 			}
 		}
-		if allBlocked && len(cur) > 0 && prev != nil && sameStates(prev, cur) {
+		var pg int64
+		if progress != nil {
+			pg = progress()
+		}
+		if allBlocked && len(cur) > 0 && prev != nil && sameStates(prev, cur) && pg == prevProgress {
+			same++
+		} else {
+			same = 0
+		}
+		prevProgress = pg
+		if same >= 3 {
 			select {
 			case <-done: // finished while we were looking
 				return Outcome{Done: true}
@@ -629,4 +651,16 @@ func sortStrings(s []string) {
 			s[j-1], s[j] = s[j], s[j-1]
 		}
 	}
+}
+
+var hexArgRe = regexp.MustCompile(`\(0x[^)]*\)|\+0x[0-9a-f]+|0x[0-9a-f]+`)
+
+// stackFrames reduces a goroutine stack to its function names and line
+// numbers (argument values and pcs removed), for comparing two censuses.
+func stackFrames(stack string) string {
+	lines := strings.Split(stack, "\n")
+	if len(lines) > 0 {
+		lines = lines[1:] // header carries the state and the wait duration
+	}
+	return hexArgRe.ReplaceAllString(strings.Join(lines, "\n"), "")
 }
